@@ -313,6 +313,7 @@ def run(chk, prop=PID):
     if prop == PID:
         demangle_stream(chk, 25 if quick else 300)
     cli_stream(chk, 45 if quick else 500, prop)
+    G.big_stream(chk, prop, not quick)
     dist = {"result_sets": len(cases), "empty_set": 0, "files": 0, "files_without_lines": 0, "absolute_paths": 0, "root_files": 0,
             "lines": 0, "counts_ge_2^63": 0, "counts_2^64-1": 0, "branch_lines": 0, "branch_only_lines": 0, "functions": 0,
             "precision": {}}
@@ -349,11 +350,12 @@ def run(chk, prop=PID):
                        "with several types and -o directory (file names per type), --branch on/off, --precision 0-4 or default, --no-demangle on/off (one mangled name), --threads 1-3 and the Coveralls "
                        "service options, the reports judged by the same readers and oracles (plus: printed precision, branch columns, function detail only in coveralls+, pretty printing only in "
                        "cobertura-pretty, service fields, nothing else in the output directory); "
+                       "size / boundary sets: three fixed result sets whose highest line is 2^16+1, 2^20, 2^20+1 (thorough: also 2^24+1) through covdir, coveralls(+) and the sparse formats; "
                        "evaluation = one result set through all types (oracle), through the Gallina encoders (correspondence), or one CLI run; non-trivial = a set with at least one instrumented line; distinct by content")
     chk.cov["trusted_base"] = ["Coq kernel; vm_compute for the correspondence", "serde_json / quick-xml / Tera / tabled serialisation of the documents (read back by Python json, xml.etree, html.parser and own lcov/markdown readers)",
                                "std::path component splitting (paths enter the model as component lists computed by the driver; only plain paths are generated)",
                                "impl_run harness (e_report.rs calls the public output_* functions as main.rs does), Python readers and oracle (self-tested by seeded corruptions)"]
-    chk.assumptions = ["line numbers are in 1..200 in the generated sets (array formats allocate one slot per line; the theorems hold for any line >= 1 below 2^32-1)",
+    chk.assumptions = ["line numbers are in 1..200 in the generated sets and up to 2^20+1 (thorough 2^24+1) in the fixed size / boundary sets (array formats allocate one slot per line; the theorems hold for any line >= 1 below 2^32-1)",
                        "paths are distinct, contain no '.', '..' or empty components, and no path is a directory of another (C11/C12 territory)",
                        "function and file names are printable, without control characters or '|' in file names (escaping is C18)",
                        "branch vectors are non-empty (a line with an empty vector is not representable in lcov, coveralls or Cobertura)",
